@@ -158,6 +158,8 @@ def c16(ctx):
                 eq = rng.sample(eq, 80)
             for c in eq:
                 jobs.append((s["name"], dict(c, badeq=True)))
+            for c in eq[:40]:
+                jobs.append((s["name"], dict(c, badalt=True)))
             # reload (HUP) after the chosen file stopped mentioning the setting: judged as the case with file = "no"
             rl = [c for c in by_kind.get(s["kind"], []) if c["file"] in ("A", "B") and c["files"]
                   and "bad" not in (c["fw"], c["env"], c["cli"])]
@@ -168,7 +170,7 @@ def c16(ctx):
         ctx.coverage["abstract_cases"] = len(rows)
         # distribute: interleave so that every worker gets a mix
         parts = [jobs[n::NPROC] for n in range(NPROC)]
-        futs = [ex.submit(driver, n, "run", [[nm, {k: c[k] for k in ("fw", "file", "env", "cli", "files", "badeq", "reload") if k in c}]
+        futs = [ex.submit(driver, n, "run", [[nm, {k: c[k] for k in ("fw", "file", "env", "cli", "files", "badeq", "reload", "badalt") if k in c}]
                                              for nm, c in part]) for n, part in enumerate(parts)]
         results = [f.result() for f in futs]
         fd.result()
@@ -185,6 +187,8 @@ def c16(ctx):
                   "files": c["files"], "fail": r["fail"], "obs": r["obs"]}
             if c.get("badeq"):
                 ev["badeq"] = True
+            if c.get("badalt"):
+                ev["badalt"] = True
             if c.get("reload"):
                 if not r.get("reloaded"):
                     continue              # the first load already stopped: nothing was reloaded
@@ -196,6 +200,8 @@ def c16(ctx):
     ctx.coverage["loads_per_setting_min_max"] = [min(len(v) for v in per_setting.values()),
                                                  max(len(v) for v in per_setting.values())]
     judge(ctx, per_setting)
+    from props import config_real
+    config_real.real_side(ctx)
     nm = sorted(per_setting)[0]
     for ev, r, c in per_setting.get("workers", per_setting[nm])[:3]:
         ctx.sample({"setting": "workers" if "workers" in per_setting else nm, "case": ev, "argv": r.get("argv"),
@@ -242,7 +248,7 @@ def judge(ctx, per_setting):
             total += 1
             sig = "C16/%s/setting=%s,kind=%s,top=%s,got=%s%s%s" % (v, n, ev["kind"], top_of(ev),
                                                                   got_from(ev, ev["obs"], ev["fail"]),
-                                                                  ",invalid==current" if ev.get("badeq") else "",
+                                                                  ",invalid==current" if ev.get("badeq") else ",invalid-type" if ev.get("badalt") else "",
                                                                   ",after-reload" if ev.get("reload") else "")
             ctx.violation(sig, "%s: setting %s (%s): sources fw=%s file=%s env=%s cli=%s, files named by %s -> %s; "
                           "argv=%s GUNICORN_CMD_ARGS=%r" % (v, n, ev["kind"], ev["fw"], ev["file"], ev["env"],
@@ -259,7 +265,7 @@ def replay(ctx, data):
     n, ev = case["setting"], case["case"]
     print("replaying %s" % data["signature"])
     os.makedirs(SCRATCH, exist_ok=True)
-    res = driver(9, "run", [[n, {k: ev[k] for k in ("fw", "file", "env", "cli", "files", "badeq", "reload") if k in ev}]])[0]
+    res = driver(9, "run", [[n, {k: ev[k] for k in ("fw", "file", "env", "cli", "files", "badeq", "reload", "badalt") if k in ev}]])[0]
     print("observed:", res)
     if "skip" in res:
         return 0
